@@ -77,13 +77,27 @@ class MemFS:
     """open_obj override: an in-memory file system honouring the documented prototype
     open_obj(filename, mode, encoding)."""
 
-    def __init__(self):
+    def __init__(self, short_reads=None):
         self.files = {}
         self.calls = []
+        self.short_reads = short_reads      # int: read(size) returns at most this many bytes (a raw, unbuffered stream)
+        self.short_reads_served = 0
 
     def open(self, filename, mode, encoding=None):
         self.calls.append((filename, mode, encoding))
         fs = self
+
+        class Raw(io.BytesIO):
+            """a raw stream (socket, pipe, TLS record reader, remote storage): read(size) may return fewer bytes than
+            asked although more follow; only b'' means end of data"""
+            def read(self_inner, size=-1):
+                if size is None or size < 0 or fs.short_reads is None:
+                    return super().read(size)
+                n = min(size, fs.short_reads)
+                data = super().read(n)
+                if n < size and data:
+                    fs.short_reads_served += 1
+                return data
 
         class W(io.BytesIO):
             def close(self_inner):
@@ -91,7 +105,7 @@ class MemFS:
                 super().close()
         if 'w' in mode:
             return W()
-        return io.BytesIO(self.files[filename])
+        return Raw(self.files[filename])
 
 
 class C19(Check):
@@ -104,7 +118,7 @@ class C19(Check):
             'Object counts 0, 1, few, and enough to fill 1..5 read chunks of 64 KiB. non-trivial = >= 2 objects; distinct = hash of the case')
     ASSUMPTIONS = ['orjson / json are trusted as JSON codecs; floats are finite; top-level items are dicts (domain of the property)']
     ANCHORS = ['rxsci/container/json.py', 'rxsci/io/file.py', 'rxsci/framing/line.py', 'rxsci/data/codec.py']
-    REQUIRED_TAGS = ['none', 'gzip', 'zstd', 'stream', 'path', 'fileobj', 'open_obj', 'empty', 'multi-chunk', 'astral', 'whole-document', 'over-1MiB-compressible', 'gzip-ratio>32-over-2MiB', 'pushed-source']
+    REQUIRED_TAGS = ['none', 'gzip', 'zstd', 'stream', 'path', 'fileobj', 'open_obj', 'empty', 'multi-chunk', 'astral', 'whole-document', 'over-1MiB-compressible', 'gzip-ratio>32-over-2MiB', 'pushed-source', 'open_obj-with-short-reads']
     REQUIRED_OBSERVED = ['objects_compared', 'twin_dumps_read_back']
 
     def __init__(self):
@@ -246,7 +260,9 @@ class C19(Check):
                 with open(path, 'rb') as f:
                     got = subscribe(call(J.load_from_file, [('filename', f), ('lines', True), ('skip', 0), ('ignore_error', False), ('encoding', 'utf-8'), ('compression', comp)]), Snap())
             else:
-                fs = MemFS()
+                fs = MemFS(short_reads=[None, 1000, 16384, 65535, 7][len(objs) % 5])
+                if fs.short_reads:
+                    out.tags.append('open_obj-with-short-reads')
                 w = subscribe(rx.from_(objs).pipe(call(J.dump_to_file, [('filename', 'mem.json'), ('newline', '\n'), ('encoding', 'utf-8'), ('compression', comp), ('open_obj', fs.open)])), Snap())
                 if w.err is not None or not w.done:
                     return out.fail('dump_to_file-failed', error=repr(w.err), done=w.done)
